@@ -514,3 +514,117 @@ def naming_rows(ctx):
                      "message": f"basic_name({cname!r}) gives {got!r}; the shipped module {mname} lives in package {api!r}",
                      "file": "codegen/generate_schema.py", "line": basic.node.lineno})
     return rows
+
+
+def _parse_field_line(line):
+    """`    name: ANN = field(k=v, ...)` -> (name, annotation source, {kw: source}) or None."""
+    try:
+        st = ast.parse("class _X:\n" + line).body[0].body[0]
+    except (SyntaxError, IndexError):
+        return None
+    if not isinstance(st, ast.AnnAssign) or not isinstance(st.target, ast.Name):
+        return None
+    kws = {}
+    if isinstance(st.value, ast.Call) and ast.unparse(st.value.func) == "field":
+        kws = {k.arg: ast.unparse(k.value) for k in st.value.keywords}
+    elif st.value is not None:
+        kws = {"default": ast.unparse(st.value)}
+    return st.target.id, ast.unparse(st.annotation), kws
+
+
+def struct_field_lines(ctx):
+    """G12: the lines emitted for struct-array and struct fields over a grid of definitions x versions.
+    Independent reading of the definition (README of the message definitions): the field is nullable in v iff
+    nullableVersions contains v; tagged in v iff taggedVersions contains v (then the tag is in the metadata); an array
+    without an explicit default defaults to the EMPTY array, nullable or not -- a tagged array therefore carries `()`."""
+    I = ctx.interp
+    gs = _mod(ctx, "codegen.generate_schema")
+    pm = _mod(ctx, "codegen.parser")
+    VR = _mod(ctx, "codegen.versions").env.vars.get("VersionRange")
+    f_arr, f_ent = gs.env.vars.get("format_non_primitive_array_field"), gs.env.vars.get("generate_entity_field")
+    EAF, EF, ET_, EAT = (pm.env.vars.get(n) for n in ("EntityArrayField", "EntityField", "EntityType", "EntityArrayType"))
+    if not all(isinstance(x, FuncV) for x in (f_arr, f_ent)) or not all(isinstance(x, ClassV) for x in (EAF, EF, VR)):
+        raise AnalysisError("anchor vanished: generate_schema.format_non_primitive_array_field / generate_entity_field / parser field classes")
+    INF = float("inf")
+    mk = lambda r: None if r is None else I.call(VR, [r[0], r[1]], {}, Run(), None)
+    rows = []
+    for tv in (None, (1, INF)):
+        for nv in (None, (2, INF)):
+            for ignorable in (False, True):
+                base = {"name": "PendingItems", "versions": mk((0, INF)), "nullableVersions": mk(nv), "ignorable": ignorable, "mapKey": False,
+                        "about": None, "entityType": None, "tag": None if tv is None else 4, "taggedVersions": mk(tv), "fields": ()}
+                for version in (0, 1, 2, 3):
+                    tagged = tv is not None and tv[0] <= version <= tv[1]
+                    nullable = nv is not None and nv[0] <= version <= nv[1]
+                    case = f"taggedVersions={'1+' if tv else None} nullableVersions={'2+' if nv else None} ignorable={ignorable} version={version}"
+                    for kind in ("array", "struct"):
+                        try:
+                            if kind == "array":
+                                fld = InstV(EAF, dict(base, type=I.call(EAT, ["Item"], {}, Run(), None)))
+                                line = I.call(f_arr, [fld, version, "Item"], {}, Run(), None)
+                            else:
+                                fld = InstV(EF, dict(base, type=I.call(ET_, ["Item"], {}, Run(), None), default=None))
+                                line = I.call(f_ent, [fld, version], {}, Run(), None)
+                        except Raised as r:
+                            rows.append({"ok": False, "kind": kind, "case": case, "message": f"raises {short_exc(r.cls)}"})
+                            continue
+                        except Limit as e:
+                            raise AnalysisError(f"codegen field generator ({kind}) not understood: {e}")
+                        if not isinstance(line, str):
+                            raise AnalysisError(f"codegen field generator ({kind}, {case}) is not evaluated to a constant string: {line!r}")
+                        parsed = _parse_field_line(line)
+                        if parsed is None:
+                            rows.append({"ok": False, "kind": kind, "case": case, "message": f"emits {line!r}, not a field line"})
+                            continue
+                        name, ann, kws = parsed
+                        problems = []
+                        if name != "pending_items":
+                            problems.append(f"field is named {name!r}")
+                        want_ann = ("tuple[Item, ...]" if kind == "array" else "Item") + (" | None" if nullable else "")
+                        if ann.replace(" ", "") != want_ann.replace(" ", ""):
+                            problems.append(f"annotation is {ann!r}, the definition gives {want_ann!r}")
+                        md = ast.literal_eval(kws["metadata"]) if "metadata" in kws else {}
+                        if md.get("tag") != (4 if tagged else None):
+                            problems.append(f"metadata tag is {md.get('tag')!r}, the definition gives {4 if tagged else None!r}")
+                        if kind == "array":
+                            want_def = "()" if tagged else None
+                            if kws.get("default") != want_def:
+                                problems.append(f"default is {kws.get('default')!r}; an array without an explicit default defaults to the empty "
+                                                f"array{' (tagged: `()`)' if tagged else ' (untagged: no dataclass default)'}")
+                        elif kws.get("default") == "None" and not nullable:
+                            problems.append("default None on a non-nullable struct field")
+                        rows.append({"ok": not problems, "kind": kind, "case": case, "message": f"{kind} field, {case}: " + "; ".join(problems)})
+    return rows
+
+
+STRING_PROBES = ("", "abc", "it's", 'say "hi"', "back\\slash", "tab\there", "new\nline", "\u00e9t\u00e9", "\u4e2d", "\U00020bb7", "{brace}")
+
+
+def string_default_literals(ctx):
+    """G13: format_default(string, s) must be a Python literal that evaluates to s (any character)."""
+    I = ctx.interp
+    gs = _mod(ctx, "codegen.generate_schema")
+    fd = gs.env.vars.get("format_default")
+    P, members = primitive_members(ctx)
+    st = next((m for m in members if m.name == "string"), None)
+    if not isinstance(fd, FuncV) or st is None:
+        raise AnalysisError("anchor vanished: format_default / Primitive.string")
+    rows = []
+    for s in STRING_PROBES:
+        case = f"format_default(Primitive.string, {s!r})"
+        try:
+            got = I.call(fd, [st, s, False, None], {}, Run(), None)
+        except Raised as r:
+            rows.append({"ok": False, "case": case, "message": f"{case} raises {short_exc(r.cls)}", "line": fd.node.lineno})
+            continue
+        except Limit as e:
+            raise AnalysisError(f"format_default not understood: {e}")
+        if not isinstance(got, str):
+            raise AnalysisError(f"{case} is not evaluated to a constant string: {got!r}")
+        try:
+            val = ast.literal_eval(got)
+        except (SyntaxError, ValueError):
+            val = ("<not a literal>",)
+        rows.append({"ok": val == s, "case": case, "line": fd.node.lineno,
+                     "message": f"{case} emits {got}, which evaluates to {val!r} in the generated module, not to the definition's {s!r}"})
+    return rows
